@@ -37,6 +37,10 @@ type LocV struct {
 	Typ types.Type // type of the pointee
 }
 
+// Ar is a mathematical integer array (SMT (Array Int Int)); only in contracts (lemma parameters, arrof()).
+type Ar struct{ T string }
+
+func (Ar) isValue()   {}
 func (Sc) isValue()   {}
 func (Sl) isValue()   {}
 func (St) isValue()   {}
